@@ -116,3 +116,70 @@ butterfly_kernel_harness!(butterfly27_kernel_f64, Butterfly27, 27, f64, any_cx64
 butterfly_kernel_harness!(butterfly29_kernel_f64, Butterfly29, 29, f64, any_cx64);
 butterfly_kernel_harness!(butterfly31_kernel_f64, Butterfly31, 31, f64, any_cx64);
 butterfly_kernel_harness!(butterfly32_kernel_f64, Butterfly32, 32, f64, any_cx64);
+
+// ---- array_utils: the two re-typing helpers and LoadStore on slices / arrays (quick tier; loop-free, all lengths up to the array) ----
+// These discharge two declared rewrites of the Verus extraction: R17 (`workaround_transmute[_mut]` is the identity on pointer and
+// length once the element types agree) and R2b (`LoadStore::load/store` on a slice or array is `get_unchecked[_mut]` of that index:
+// with idx < len - the debug_assert the kernels' obligations discharge - it touches exactly that element).
+#[kani::proof]
+fn array_utils_transmute_identity() {
+    let a: [Complex<f32>; 3] = [any_cx32(), any_cx32(), any_cx32()];
+    let n: usize = kani::any();
+    kani::assume(n <= 3);
+    let s = &a[..n];
+    let r: &[Complex<f32>] = unsafe { crate::array_utils::workaround_transmute(s) };
+    assert!(r.as_ptr() == s.as_ptr() && r.len() == s.len());
+    let mut b: [Complex<f64>; 3] = [any_cx64(), any_cx64(), any_cx64()];
+    let s2 = &mut b[..n];
+    let (p, l) = (s2.as_ptr(), s2.len());
+    let r2: &mut [Complex<f64>] = unsafe { crate::array_utils::workaround_transmute_mut(s2) };
+    assert!(r2.as_ptr() == p && r2.len() == l);
+    kani::cover!(n == 3);
+}
+#[kani::proof]
+#[kani::unwind(6)]
+fn array_utils_loadstore_slice() {
+    use crate::array_utils::LoadStore;
+    let mut a: [Complex<f32>; 4] = [any_cx32(), any_cx32(), any_cx32(), any_cx32()];
+    let before = a;
+    let n: usize = kani::any();
+    let idx: usize = kani::any();
+    kani::assume(n <= 4 && idx < n);
+    let v = any_cx32();
+    {
+        let mut s: &mut [Complex<f32>] = &mut a[..n];
+        let got = unsafe { s.load(idx) };
+        assert!(got.re.to_bits() == before[idx].re.to_bits() && got.im.to_bits() == before[idx].im.to_bits());
+        unsafe { s.store(v, idx) };
+    }
+    let mut k = 0;
+    while k < 4 {
+        if k == idx { assert!(a[k].re.to_bits() == v.re.to_bits() && a[k].im.to_bits() == v.im.to_bits()); }
+        else { assert!(a[k].re.to_bits() == before[k].re.to_bits() && a[k].im.to_bits() == before[k].im.to_bits()); }
+        k += 1;
+    }
+    kani::cover!(n == 4 && idx == 3);
+}
+#[kani::proof]
+#[kani::unwind(6)]
+fn array_utils_loadstore_array() {
+    use crate::array_utils::LoadStore;
+    let mut a: [Complex<f64>; 3] = [any_cx64(), any_cx64(), any_cx64()];
+    let before = a;
+    let idx: usize = kani::any();
+    kani::assume(idx < 3);
+    let v = any_cx64();
+    {
+        let mut s: &mut [Complex<f64>; 3] = &mut a;
+        let got = unsafe { s.load(idx) };
+        assert!(got.re.to_bits() == before[idx].re.to_bits() && got.im.to_bits() == before[idx].im.to_bits());
+        unsafe { s.store(v, idx) };
+    }
+    let mut k = 0;
+    while k < 3 {
+        if k == idx { assert!(a[k].re.to_bits() == v.re.to_bits() && a[k].im.to_bits() == v.im.to_bits()); }
+        else { assert!(a[k].re.to_bits() == before[k].re.to_bits() && a[k].im.to_bits() == before[k].im.to_bits()); }
+        k += 1;
+    }
+    kani::cover!(idx == 2);
+}
